@@ -2,6 +2,9 @@ import Blue.Proofs.KvsWrite
 import Blue.Proofs.Rollover
 import Blue.Proofs.KvsConc
 import Blue.Proofs.KvsConcHandoff
+import Blue.Proofs.KvsConcReads
+import Blue.Proofs.KvsConcFirstHit
+import Blue.Proofs.KvsConcSnapBridge
 import Blue.Proofs.ConstsTieC06
 /-! # Property C06 — concurrent reads/writes are linearizable; batches become visible atomically
 
@@ -27,9 +30,22 @@ theorems for *every* interleaving of their events:
 Linearization: writes in sequence-number order, each at the moment it leaves the wait list
 (`wFin`, where `visible` becomes its number); a read at its snapshot.  `write_order` (numbers respect
 real time), `no_stale_read` + `snapshot_after_return_covers` (a read is not older than any write
-that returned before it began), `no_phantom` (it returns an entry some write put there, and that
-write had begun), `batch_atomic` + `snapshot_stable` (a snapshot sees a batch entirely or not at
-all, and never changes) are the obligations of that linearization on the model. -/
+that returned before it began), `no_phantom` (it returns an entry some write put there, with a
+number its timestamp covers) + `read_sees_only_returned` (repaired: that write had RETURNED when
+the snapshot was taken), `later_snapshot_ts_ge` + `read_monotone` / `reads_never_go_back` (reads
+do not go back in time against each other), `batch_atomic` + `snapshot_stable` (a snapshot sees a
+batch entirely or not at all, and never changes) are the obligations of that linearization on the
+model.  `first_hit_eq_newest` ties the model's `lookup` (newest over the union of mem, imm and the
+version's tables) to what `KeyValueStore::load` does (first hit searching mem → imm → version).
+
+What the model does NOT have (said here once): a compaction is a version-number bump only
+(`tInstall`: same tables, other files) and garbage collection is absent — that they preserve the
+newest version of every key is C01 / C05; flush / clear / install steps do not touch table
+contents, so for those events `snapshot_stable` holds by construction (its content is the `wIns`
+case: every later insert is numbered above every existing snapshot's timestamp —
+`late_inserts_above_snapshot_ts`).  `flushed_table_complete` / `insert_only_into_open_table` /
+`first_hit_eq_newest` take `mem0 < seq0` (the store opens with `mem_seq_no < seq_no`, as
+`verif_state` reports and the driver checks on every trace). -/
 namespace Blue.Props.C06
 open Blue.KvsWrite (Entry)
 
@@ -57,8 +73,10 @@ example :
       (fun s => s.readers.map (fun r => (r.1, r.2.clean, value s r.2 1, value s r.2 2)))
       = some [(2, true, some 7, some 8), (1, true, none, none), (0, true, none, none)] := by decide
 
-/-- **an open cursor is a stable snapshot** (repaired): no later event — in particular no writer in
-    flight when the snapshot was taken — changes what the snapshot sees -/
+/-- **an open cursor is a stable snapshot** (repaired): no later *insert* — in particular none of a
+    writer in flight when the snapshot was taken — changes what the snapshot sees.  (Only the
+    `wIns` case has content, see `late_inserts_above_snapshot_ts`; flush / clear / version-install
+    steps do not touch table contents in this model, by construction.) -/
 theorem snapshot_stable (evs : List Ev) {s s' : St} (h : Inv s) (hc : s.completed = true)
     (r : Nat × Snap) (hr : r ∈ s.readers) (hrun : run s evs = some s') : view s' r.2 = view s r.2 :=
   Blue.KvsConc.snapshot_stable evs h hc r hr hrun
@@ -89,9 +107,11 @@ theorem snapshot_after_return_covers {c : Bool} {seq0 mem0 : Nat} {evs : List Ev
 example : ∃ s, run (init true 2 1) [.wBegin 3 1 [(1, some 7)], .wLog 3, .wIns 3 0, .wFin 3, .rTree 0 0,
     .rSnap 0 3 1 false] = some s ∧ (s.readers.map (fun r => (r.2.clean, value s r.2 1))) = [(true, some 7)] := by decide
 
-/-- **never a value that was not written, never one from the future**: what a lookup returns is an
-    entry of the batch of the write with that sequence number, for the key asked, and that write
-    had begun when the snapshot was taken -/
+/-- **never a value that was not written, never one from the future**: what a lookup through ANY
+    snapshot record `sn` returns is an entry of the batch of the write with that sequence number,
+    for the key asked, and that number is not beyond `sn.ts`.  (That the write had begun — and on
+    the repaired store returned — when the snapshot was TAKEN needs `sn` to be a reader's snapshot:
+    `read_result_was_returned` below.) -/
 theorem no_phantom {c : Bool} {seq0 mem0 : Nat} {evs : List Ev} {s : St}
     (hrun : run (init c seq0 mem0) evs = some s) (sn : Snap) (k : Nat) (e : Entry)
     (hl : lookup s sn k = some e) :
@@ -104,6 +124,90 @@ theorem write_order {c : Bool} {seq0 mem0 : Nat} {evs : List Ev} {s s' : St}
     (hrun : run (init c seq0 mem0) evs = some s) (q t : Nat) (b : List (Nat × Option Nat))
     (hs : step s (.wBegin q t b) = some s') : ∀ w ∈ s.writers, w.seq < q :=
   Blue.KvsConc.write_order hrun q t b hs
+
+/-- **a read sees only writes that have returned** (repaired): every write whose number a
+    reader's timestamp covers has left the wait list -/
+theorem read_sees_only_returned {seq0 mem0 : Nat} {evs : List Ev} {s : St}
+    (hrun : run (init true seq0 mem0) evs = some s) (r : Nat × Snap) (hr : r ∈ s.readers)
+    (w : Writer) (hw : w ∈ s.writers) (hle : w.seq ≤ r.2.ts) : w.finished = true :=
+  Blue.KvsConc.read_sees_only_returned hrun r hr w hw hle
+
+/-- … so what a reader's lookup returns was written by a write that has returned -/
+theorem read_result_was_returned {seq0 mem0 : Nat} {evs : List Ev} {s : St}
+    (hrun : run (init true seq0 mem0) evs = some s) (r : Nat × Snap) (hr : r ∈ s.readers)
+    (k : Nat) (e : Entry) (hl : lookup s r.2 k = some e) :
+    ∃ w ∈ s.writers, w.seq = e.seq ∧ w.finished = true ∧ (k, e.val) ∈ w.batch :=
+  Blue.KvsConc.read_result_was_returned hrun r hr k e hl
+
+/-- **the content of `snapshot_stable`** (repaired; hypothesis (i) of C07's
+    `cursor_sees_snapshot_partial` as a step fact of this model): a memtable insert enabled in a
+    reachable state carries a number above the timestamp of every snapshot that exists -/
+theorem late_inserts_above_snapshot_ts {seq0 mem0 : Nat} {evs : List Ev} {s s' : St}
+    (hrun : run (init true seq0 mem0) evs = some s) (seq idx : Nat)
+    (hs : step s (.wIns seq idx) = some s') : ∀ r ∈ s.readers, r.2.ts < seq :=
+  Blue.KvsConc.late_inserts_above_snapshot_ts hrun seq idx hs
+
+/-- **read-to-read, timestamps** (both policies): a snapshot taken now reads at a timestamp at
+    least that of every snapshot that exists -/
+theorem later_snapshot_ts_ge {c : Bool} {seq0 mem0 : Nat} {evs : List Ev} {s s' : St}
+    (hrun : run (init c seq0 mem0) evs = some s) (rid ts mem : Nat) (imm : Bool)
+    (hs : step s (.rSnap rid ts mem imm) = some s') : ∀ r ∈ s.readers, r.2.ts ≤ ts :=
+  Blue.KvsConc.later_snapshot_ts_ge hrun rid ts mem imm hs
+
+/-- **read-to-read, contents** (both policies, one state): a read through a clean snapshot with a
+    timestamp at least that of another snapshot returns, for every key, the entry the other
+    returns or a newer one -/
+theorem read_monotone {c : Bool} {seq0 mem0 : Nat} {evs : List Ev} {s : St}
+    (hrun : run (init c seq0 mem0) evs = some s) (sn : Snap) (r2 : Nat × Snap) (hr2 : r2 ∈ s.readers)
+    (hclean : r2.2.clean = true) (hts : sn.ts ≤ r2.2.ts) (k : Nat) (e1 : Entry)
+    (hl : lookup s sn k = some e1) : ∃ e2, lookup s r2.2 k = some e2 ∧ e1.seq ≤ e2.seq :=
+  Blue.KvsConc.read_monotone hrun sn r2 hr2 hclean hts k e1 hl
+
+/-- **reads never go back** (repaired, across time): a read made in `s1` through `r1` returned `e1`;
+    after any further events a read through a clean snapshot with a timestamp at least `r1`'s — by
+    `later_snapshot_ts_ge` every snapshot taken after `r1` — returns `e1` or a newer entry -/
+theorem reads_never_go_back {seq0 mem0 : Nat} {evs evs' : List Ev} {s1 s2 : St}
+    (hrun : run (init true seq0 mem0) evs = some s1) (hrun' : run s1 evs' = some s2)
+    (r1 : Nat × Snap) (hr1 : r1 ∈ s1.readers) (r2 : Nat × Snap) (hr2 : r2 ∈ s2.readers)
+    (hclean : r2.2.clean = true) (hts : r1.2.ts ≤ r2.2.ts) (k : Nat) (e1 : Entry)
+    (hl : lookup s1 r1.2 k = some e1) : ∃ e2, lookup s2 r2.2 k = some e2 ∧ e1.seq ≤ e2.seq :=
+  Blue.KvsConc.reads_never_go_back hrun hrun' r1 hr1 r2 hr2 hclean hts k e1 hl
+
+/-- **`load`'s first hit is the newest visible version**: searching mem, then imm, then the tables
+    of the version newest first and stopping at the first table that has a visible version of the
+    key (`firstHit`, what `KeyValueStore::load` does) returns the entry `lookup` returns (the newest
+    visible version over the union) — for every reader's snapshot in every reachable state -/
+theorem first_hit_eq_newest {c : Bool} {seq0 mem0 : Nat} (hm : mem0 < seq0) {evs : List Ev} {s : St}
+    (hrun : run (init c seq0 mem0) evs = some s) (r : Nat × Snap) (hr : r ∈ s.readers) (k : Nat) :
+    firstHit s r.2 k = lookup s r.2 k :=
+  Blue.KvsConc.first_hit_eq_newest hm hrun r hr k
+
+/-- **`visible_seq_no` and C07's `readTs` select the same entries**: the two numbers differ (a
+    rotation consumes a sequence number no write carries — `numbers_differ_after_rotation`), but
+    no entry of any table is numbered in between, so a snapshot reading at `visible` and one reading
+    at `Blue.Snap.readTs seqNo (numbers in flight)` have the same view, in every reachable state -/
+theorem view_visible_eq_view_readTs {c : Bool} {seq0 mem0 : Nat} {evs : List Ev} {s : St}
+    (hrun : run (init c seq0 mem0) evs = some s) (tbls : List Nat) (cl : Bool) :
+    view s ⟨s.visible, tbls, cl⟩ = view s ⟨Blue.Snap.readTs s.seqNo (inflight s), tbls, cl⟩ :=
+  Blue.KvsConc.view_visible_eq_view_readTs hrun tbls cl
+
+theorem numbers_differ_after_rotation :
+    (run (init true 2 1) [.fRotate 2 1]).map
+      (fun s => (s.visible, Blue.Snap.readTs s.seqNo (inflight s))) = some (2, 3) :=
+  Blue.KvsConc.numbers_differ_after_rotation
+
+/-- non-vacuity (20 events): two writers overlap (batch 3 over keys 1, 2; write 4 over key 1, which
+    inserts first), a rotation falls between the two inserts of batch 3, three clean readers take
+    their snapshots before, between and after the returns, a compaction and the flush install
+    versions.  Reader 0 (ts 2) sees nothing, reader 1 (ts 3) sees batch 3 whole and not write 4,
+    reader 2 (ts 4) sees write 4 over batch 3; first hit and newest agree for all of them. -/
+example : ∃ s, run (init true 2 1) [.wBegin 3 1 [(1, some 7), (2, some 8)], .wBegin 4 1 [(1, some 9)], .wLog 4, .wIns 4 0, .wLog 3,
+        .wIns 3 0, .fRotate 4 1, .rTree 0 0, .rSnap 0 2 4 true, .wIns 3 1, .wFin 3, .rTree 1 0, .rSnap 1 3 4 true, .wFin 4, .fHead 4, .tInstall 5,
+        .fInstall 1 6, .rTree 2 6, .rSnap 2 4 4 true, .fClear 1] = some s ∧
+    s.readers.map (fun r => (r.1, r.2.clean, value s r.2 1, value s r.2 2))
+      = [(2, true, some 9, some 8), (1, true, some 7, some 8), (0, true, none, none)] ∧
+    s.readers.all (fun r => firstHit s r.2 1 == lookup s r.2 1 && firstHit s r.2 2 == lookup s r.2 2) = true := by
+  decide
 
 /-- **rollover joined with the writers**: at every instant the tables a snapshot searches (mem, imm,
     flushed) hold every entry inserted so far -/
@@ -295,6 +399,15 @@ end Blue.Props.C06
 #print axioms Blue.Props.C06.snapshot_after_return_covers
 #print axioms Blue.Props.C06.no_phantom
 #print axioms Blue.Props.C06.write_order
+#print axioms Blue.Props.C06.read_sees_only_returned
+#print axioms Blue.Props.C06.read_result_was_returned
+#print axioms Blue.Props.C06.late_inserts_above_snapshot_ts
+#print axioms Blue.Props.C06.later_snapshot_ts_ge
+#print axioms Blue.Props.C06.read_monotone
+#print axioms Blue.Props.C06.reads_never_go_back
+#print axioms Blue.Props.C06.first_hit_eq_newest
+#print axioms Blue.Props.C06.view_visible_eq_view_readTs
+#print axioms Blue.Props.C06.numbers_differ_after_rotation
 #print axioms Blue.Props.C06.snapshot_covers_all
 #print axioms Blue.Props.C06.flushed_table_complete
 #print axioms Blue.Props.C06.insert_only_into_open_table
